@@ -183,6 +183,9 @@ func derived(doc string, maxKeys int, w *vkit.W, hashed bool) {
 func TestCheck(t *testing.T) {
 	r := vkit.Start("C12")
 	defer r.Finish(t)
+	if r.ReplayCold() {
+		return
+	}
 	if r.Replay != "" {
 		var c Case
 		if err := r.LoadReplay(&c); err != nil {
@@ -359,6 +362,42 @@ func TestCheck(t *testing.T) {
 			}
 		})
 	})
+
+	// Phase H4: unknown members "of any nesting": arrays, objects and mixed nests of depth 1..5000 in every position.
+	r.Phase("H4: unknown members nested 1..5000 levels deep (arrays, objects, mixed), before / between / after value and unit", func() {
+		defer configure(0)()
+		depths := []int{1, 2, 5, 8, 15, 16, 17, 31, 32, 33, 34, 63, 64, 65, 100, 127, 128, 129, 255, 256, 257, 500, 1000, 1024, 2500, 5000}
+		r.Parallel(int64(len(depths)), 1, func(w *vkit.W, lo, hi int64) {
+			for i := lo; i < hi; i++ {
+				d := depths[i]
+				nests := []string{
+					strings.Repeat("[", d) + strings.Repeat("]", d),
+					strings.Repeat("[", d) + `1,"unit"` + strings.Repeat("]", d),
+					strings.Repeat(`{"value":`, d) + "1" + strings.Repeat("}", d),
+					strings.Repeat(`[{"unit":`, d) + `"kB"` + strings.Repeat("}]", d),
+					strings.Repeat(`{"a":[`, d) + strings.Repeat("]}", d),
+				}
+				for _, nest := range nests {
+					for _, doc := range []string{
+						`{"x":` + nest + `,"value":3,"unit":"KiB"}`,
+						`{"value":3,"x":` + nest + `,"unit":"KiB"}`,
+						`{"value":3,"unit":"KiB","x":` + nest + `}`,
+						`{"x":` + nest + `,"value":3,"y":` + nest + `,"unit":"KiB"}`,
+						`{"x":` + nest + `}`,
+						`{"value":` + nest + `,"unit":"KiB"}`,
+						`{"x":` + nest[:len(nest)-1] + `,"value":3,"unit":"KiB"}`,
+					} {
+						for _, rule := range []int{6, 14, 4, 2} {
+							judge(Case{Input: vkit.B(doc), Rule: rule, MaxKeys: 0}, w)
+							w.EvalRandom(vkit.Hash64(doc, strconv.Itoa(rule)), true)
+						}
+					}
+				}
+			}
+		})
+	})
+
+	r.ColdPhase(coldFirst)
 
 	// Phase B: top-level scalars and strings x 16 rules
 	r.Phase("B: numbers, strings (with escapes), literals, arrays x 16 rules + truncations/suffixes", func() {
